@@ -263,8 +263,9 @@ class Contract:
             else:
                 from .loops import havoc_like
                 st.heap[(id(ref.obj), attr)] = havoc_like(ex, st, cur, f"{short}.{ref.path}.{attr}")
-        res = make_value(ex, st, self.result, fresh_name(f"{short}.result"), register_input=False) \
-            if self.result is not None else None
+        rspec = self.result_at_call(env) if hasattr(self, "result_at_call") else self.result
+        res = make_value(ex, st, rspec, fresh_name(f"{short}.result"), register_input=False) \
+            if rspec is not None else None
         with spec_context(ex, st):
             ns = NS(st, env, old=NS(pre_state, env))
             ens = normalise_clauses(ex, st, self.ensures(ns, _wrap_result(res, st)))
@@ -340,6 +341,23 @@ def contract(cls):
     return cls
 
 
+def _bind_defaults(ex, st, fnode, env, module):
+    """parameters the contract does not list take the function's own default values"""
+    a = fnode.args
+    params = [p.arg for p in a.args]
+    nd = len(a.defaults)
+    st.frames = [{"$module": module}]
+    for i, p in enumerate(params):
+        if p in env:
+            continue
+        di = i - (len(params) - nd)
+        if di >= 0:
+            env[p] = ex.ev(a.defaults[di], st)
+    for p, d in zip(a.kwonlyargs, a.kw_defaults):
+        if p.arg not in env and d is not None:
+            env[p.arg] = ex.ev(d, st)
+
+
 class RunResult:
     def __init__(self):
         self.obligations = []
@@ -384,6 +402,7 @@ def _one_run(c, cfg_label, cfg, repo_src, registry, snapshot_root, prefix):
         if pname in arg_tf:
             env[pname] = arg_tf[pname](ex, env[pname])
     c.setup(ex, st, cfg)
+    _bind_defaults(ex, st, fnode, env, module)
     env["$module"] = module
     env["$qualname"] = c.key.split("::")[-1]
     st.frames = [env]
@@ -495,6 +514,7 @@ def _verify_contract(c: Contract, cfg_label: str, cfg: dict, repo_src: str, regi
                 env[pname] = make_value(ex, st, spec(n=c.size_seqs[pname](size)), pname)
             else:
                 env[pname] = make_value(ex, st, spec, pname)
+        _bind_defaults(ex, st, fnode, env, module)
         env["$module"] = module
         env["$qualname"] = c.key.split("::")[-1]
         st.frames = [env]
